@@ -137,9 +137,15 @@ Definition obs_eqb (a b : obs) : bool :=
 
 (* ---------------------------------------------------------------- oracles on observations *)
 
-(* C02_ns_ps_invariant / C02_next_previous_spec: NS and PS are the cyclic neighbours of TS in the LAS *)
+(* C02_ns_ps_invariant / C02_next_previous_spec: NS and PS are the cyclic neighbours of TS in the LAS.
+   Not judged while the station is still Uninitialized: C02 speaks about the LAS from discovery on
+   (C02_las_discovery holds for EVERY LAS / NS / PS content at the start of discovery), so what an
+   implementation keeps in the LAS before discovery starts is its own business. *)
 Definition c02_nsps_ok (ts : Z) (o : obs) : bool :=
-  cyc_nextb (o_las o) ts (o_ns o) && cyc_prevb (o_las o) ts (o_ps o).
+  match o_state o with
+  | Some LasUninitialized => true
+  | _ => cyc_nextb (o_las o) ts (o_ns o) && cyc_prevb (o_las o) ts (o_ps o)
+  end.
 
 Definition verifiesb (S : list Z) (sa da : Z) : bool :=
   existsb (Z.eqb sa) S && existsb (Z.eqb da) S &&
@@ -148,12 +154,27 @@ Definition verifiesb (S : list Z) (sa da : Z) : bool :=
 (* One step of the implementation, judged by the declarative statements:
    bad addresses are ignored; ready_for_ring <-> Valid; in Valid a pass updates the LAS to
    las_after_pass and stays Valid; a verifying pass in Valid changes nothing; in Verification the
-   LAS only changes when the state falls back to Discovery; Uninitialized never touches the LAS;
-   set_next_station(a) is "enter a, then witness ts -> a"; remove_station(a) removes exactly a. *)
+   LAS only changes when the state falls back to Discovery;
+   set_next_station(a) is "enter a, then witness ts -> a"; remove_station(a) removes exactly a.
+   While the station is Uninitialized (discovery has not started) only the state machine is judged
+   (a wrap-around starts Discovery, bad addresses and other passes leave it Uninitialized, claim
+   makes it Valid, N / R keep it): the LAS content and NS / PS before discovery are not constrained
+   by C02 - discovery rebuilds the LAS from a full rotation whatever it held (C02_las_discovery
+   quantifies over every initial LAS content). *)
 Definition c02_step_ok (ts : Z) (o : obs) (op : op) (o' : obs) : bool :=
   match o_state o, o_state o' with
   | Some s, Some s' =>
       Bool.eqb (o_ready o') (state_eqb s' LasValid) &&
+      match s with
+      | LasUninitialized =>
+          match op with
+          | OpW sa da =>
+              if bad_addrb (sa, da) then state_eqb s' LasUninitialized
+              else state_eqb s' (if da <=? sa then LasDiscovery else LasUninitialized)
+          | OpC => state_eqb s' LasValid
+          | OpN _ | OpR _ => state_eqb s' LasUninitialized
+          end
+      | _ =>
       match op with
       | OpW sa da =>
           if bad_addrb (sa, da) then obs_eqb o o'
@@ -170,15 +191,14 @@ Definition c02_step_ok (ts : Z) (o : obs) (op : op) (o' : obs) : bool :=
                         state_eqb s' (if da <=? sa then LasValid else LasVerification)
                    else state_eqb s' LasDiscovery &&
                         list_eqb (o_las o') (las_after_pass (o_las o) sa da)
-               | LasUninitialized =>
-                   list_eqb (o_las o') (o_las o) &&
-                   state_eqb s' (if da <=? sa then LasDiscovery else LasUninitialized)
+               | LasUninitialized => true
                end
       | OpC => state_eqb s' LasValid && list_eqb (o_las o') (o_las o)
       | OpN a => state_eqb s' s &&
                  list_eqb (o_las o') (las_after_pass (insert_sorted a (o_las o)) ts a)
       | OpR a => state_eqb s' s &&
                  list_eqb (o_las o') (filter (fun x => negb (x =? a)) (o_las o))
+      end
       end
   | _, _ => true
   end.
